@@ -39,6 +39,8 @@ def check(chk, fx):
     ctx_o(chk, fx)
     ctx_p(chk, fx)
     ctx_t(chk, fx)
+    from .. import primrules
+    primrules.prims(chk, fx, "OVL")
 
 
 CHAIN = [
